@@ -1111,6 +1111,7 @@ static void qualityCase(vh::Ctx& c) {
   }
   if (k == 4 || k == 5) {
     forced = r.range(3, r.chance(0.2) ? 200 : 48);
+    if (r.chance(0.08)) forced = 3;  // the smallest value SetCircularSegments accepts
     Quality::SetCircularSegments(forced);
     desc += "SetCircularSegments(" + std::to_string(forced) + ");";
     if (r.chance(0.3)) {  // 0 removes the constraint again
